@@ -300,8 +300,9 @@ HSend(h) ==
 \* H.openSet (as written, finding F7): did_open stores is_compiling = true AFTER the send
 NothingPendingOrRunning ==
     chan = <<>> /\ pc["W"] \in {"W.clearRetrigger", "W.isEmpty", "W.notify", "W.loop"}
-HOpenSet ==
-    /\ HStep("O", "H.openSet", WaitEntry) /\ isCompiling' = TRUE
+HOpenSet(h) ==
+    /\ h = "O"
+    /\ HStep(h, "H.openSet", WaitEntry) /\ isCompiling' = TRUE
     /\ mech' = IF NothingPendingOrRunning THEN mech \cup {"late-open-store"} ELSE mech
     /\ UNCHANGED <<retrigger, chan, lastState, epoch, wloc, snap, gdoc, rtSeq, done, gcache>>
 
@@ -348,9 +349,10 @@ TWoke(h) ==
     /\ UNCHANGED <<shared, wloc, snap, ghost>>
 
 SenderStep(h) == \/ HLoad(h) \/ HSetRetrigger(h) \/ HIsFull(h) \/ HDrain(h)
-                 \/ HSetCompiling(h) \/ HSend(h) \/ (h = "O" /\ HOpenSet)
+                 \/ HSetCompiling(h) \/ HSend(h) \/ HOpenSet(h)
 WaitStep(h)   == \/ TCheck(h) \/ TCheckEmpty(h) \/ TReturn(h) \/ TCreate(h) \/ TAwait(h) \/ TWoke(h)
-HandlerStep(h) == Arrive(h) \/ (h \in Senders /\ SenderStep(h)) \/ WaitStep(h)
+\* (only senders ever stand at an H.* point: no guard, so that TLC reports coverage per action)
+HandlerStep(h) == Arrive(h) \/ SenderStep(h) \/ WaitStep(h)
 
 \* the step of thread t (used by the trace specification: one grant = one Step)
 Step(t) == IF t = "W" THEN Worker ELSE HandlerStep(t)
